@@ -602,6 +602,48 @@ def monitorC18 (cx : Ctx) : List Finding := Id.run do
           out := mkF cx "C18" "send-queue" s.sid c.lineNo s!"endpoint {e.addr}: {e.sq} messages left in the send queue after {c.call}" :: out
   return (out.reverse.foldl (fun acc f => if acc.any fun g => g.clause == f.clause && g.sid == f.sid then acc else acc ++ [f]) [])
 
+/-! ### C16 — run-time misuse is refused with the documented error -/
+
+/-- Decided on the trace alone, from the players each session was built with:
+* `disconnect_player` of a local or unknown handle is refused;
+* after an accepted `disconnect_player h`, the same call for `h` or for any other player behind
+  the same address ("and all other remote players with the same address") is refused;
+* `add_local_input` for a handle that is not a local player is refused. -/
+def monitorC16 (cx : Ctx) : List Finding := Id.run do
+  let mut out : List Finding := []
+  for s in cx.p2p do
+    let players := s.players
+    let mut goneAddrs : List Nat := []
+    for c in cx.sc.calls do
+      if c.sid != s.sid || c.result == "PANIC" then continue
+      match c.call with
+      | ["disc", hs] =>
+        let h := hs.toNat?.getD 1000000
+        match players.find? (·.1 == h) with
+        | none =>
+          if c.result != "err InvalidRequest" then
+            out := mkF cx "C16" "disc-invalid" s.sid c.lineNo s!"disconnect_player({h}) for an unknown handle returned {c.result}" :: out
+        | some (_, 'L', _) =>
+          if c.result != "err InvalidRequest" then
+            out := mkF cx "C16" "disc-invalid" s.sid c.lineNo s!"disconnect_player({h}) for a local player returned {c.result}" :: out
+        | some (_, 'R', addr) =>
+          if goneAddrs.contains addr then
+            if c.result != "err InvalidRequest" then
+              out := mkF cx "C16" "disc-twice" s.sid c.lineNo
+                s!"disconnect_player({h}): address {addr} was already disconnected by an accepted disconnect_player call, yet the call returned {c.result}" :: out
+          else if c.result == "ok" then
+            goneAddrs := addr :: goneAddrs
+        | _ => pure ()
+      | ["addin", hs, _] =>
+        let h := hs.toNat?.getD 1000000
+        let isLocal := match players.find? (·.1 == h) with
+          | some (_, 'L', _) => true
+          | _ => false
+        if !isLocal && c.result != "err InvalidRequest" then
+          out := mkF cx "C16" "addin-invalid" s.sid c.lineNo s!"add_local_input({h}) for a handle that is not a local player returned {c.result}" :: out
+      | _ => pure ()
+  return (out.reverse.foldl (fun acc f => if acc.any fun g => g.clause == f.clause && g.sid == f.sid then acc else acc ++ [f]) [])
+
 /-- Three or more peers with a player dropping out is the space of C10 (where the implementation
 is known to diverge and panic); the other properties quantify over two-peer drops or no drop. -/
 def Ctx.multiPeerDrop (cx : Ctx) : Bool := cx.p2p.length ≥ 3 && cx.anyDisconnect
@@ -622,7 +664,7 @@ def runMonitor2 (prop : String) (cx : Ctx) : List Finding :=
   | "C12" => monitorC12 cx
   | "C13" => monitorC13 cx
   | "C15" => monitorC15 cx
-  | "C16" => monitorPanics cx "C16"
+  | "C16" => monitorPanics cx "C16" ++ monitorC16 cx
   | "C17" => []
   | "C18" => monitorC18 cx
   | p => runMonitor p cx
